@@ -51,6 +51,9 @@ func (r *run) execCall(fr *frame, st *State, instr ssa.Value, c *ssa.CallCommon,
 	if fv.Fn != nil && fv.Fn.Fn != nil {
 		return wrapRes(r.callStatic(fr, st, fv.Fn.Fn, args, fv.Fn.Bindings, reach, pos, sig))
 	}
+	if len(fv.FnAlts) > 0 {
+		return wrapRes(r.dispatchAlts(fr, st, fv, args, reach, pos, sig))
+	}
 	if ct := r.dynContract(c); ct != nil {
 		ct.Used = true
 		if len(ct.Candidates) > 0 {
@@ -869,6 +872,9 @@ func (r *run) sprintfUF(format string, pack Val) (Val, bool) {
 	if ots == nil {
 		return Val{}, false
 	}
+	if t, ok := r.sprintfConcat(format, pack, m, ots); ok {
+		return Val{Term: t, Sort: "String", Type: types.Typ[types.String]}, true
+	}
 	sig := ""
 	var ops []string
 	for i := 0; i < n; i++ {
@@ -992,4 +998,119 @@ func (r *run) frameCall(fr *frame, st *State, ct *Contract, env *specEnv, cname,
 		}
 		r.oblige(fr.name, "frame.call", reach, cond, fmt.Sprintf("call to %s, which assigns %s: outside this activation's fresh objects and the assigns clause", cname, a), pos)
 	}
+}
+
+// dispatchAlts: a call through a function value known to be one of several closures, each
+// selected under a path condition: case split over the alternatives (the conditions cover
+// the reach of the merge that produced the value).
+func (r *run) dispatchAlts(fr *frame, st *State, fv Val, args []Val, reach string, pos token.Pos, sig *types.Signature) []Val {
+	type caseRes struct {
+		guard string
+		res   []Val
+		st    *State
+	}
+	var cases []caseRes
+	var guards []string
+	for _, a := range fv.FnAlts {
+		guards = append(guards, a.Guard)
+		cst := st.clone()
+		res := r.callStatic(fr, cst, a.Fn.Fn, args, a.Fn.Bindings, and(reach, a.Guard), pos, sig)
+		cases = append(cases, caseRes{a.Guard, res, cst})
+	}
+	r.oblige(fr.name, "func-value-known", reach, or(guards...), "function value is one of the closures assigned to it", pos)
+	var edges []inEdge
+	for _, cs := range cases {
+		edges = append(edges, inEdge{cond: and(reach, cs.guard), st: cs.st})
+	}
+	ms, _ := r.mergeStates(edges)
+	*st = *ms.clone()
+	var out []Val
+	for i := 0; i < sig.Results().Len(); i++ {
+		var col []Val
+		for _, cs := range cases {
+			col = append(col, cs.res[i])
+		}
+		out = append(out, r.mergeVals(edges, col, "alt"))
+	}
+	return out
+}
+
+// sprintfConcat: a format made only of literal text and plain %v / %s / %d verbs, whose
+// operands are strings (of types without String/Error/Format methods) or integers, is exactly
+// the concatenation of the literal pieces and the operands (integers in decimal).
+func (r *run) sprintfConcat(format string, pack Val, m string, ots []types.Type) (string, bool) {
+	var pieces []string
+	arg := 0
+	lit := ""
+	for i := 0; i < len(format); i++ {
+		c := format[i]
+		if c != '%' {
+			lit += string(c)
+			continue
+		}
+		if i+1 >= len(format) {
+			return "", false
+		}
+		v := format[i+1]
+		i++
+		if v == '%' {
+			lit += "%"
+			continue
+		}
+		if v != 'v' && v != 's' && v != 'd' || arg >= len(ots) {
+			return "", false
+		}
+		t := ots[arg]
+		if hasFmtMethod(t) {
+			return "", false
+		}
+		el := fmt.Sprintf("(select (arr_%s %s) %d)", m, pack.Term, arg)
+		var term string
+		switch r.eng.Sorts.SortOf(t) {
+		case "String":
+			if v == 'd' {
+				return "", false
+			}
+			term = r.eng.Sorts.Unbox(t, el)
+		case "Int":
+			if _, isB := t.Underlying().(*types.Basic); !isB || v == 's' {
+				return "", false
+			}
+			term = fmt.Sprintf("(int_to_str %s)", r.eng.Sorts.Unbox(t, el))
+		default:
+			return "", false
+		}
+		if lit != "" {
+			pieces = append(pieces, smtString(lit))
+			lit = ""
+		}
+		pieces = append(pieces, term)
+		arg++
+	}
+	if arg != len(ots) {
+		return "", false
+	}
+	if lit != "" {
+		pieces = append(pieces, smtString(lit))
+	}
+	if len(pieces) == 0 {
+		return smtString(""), true
+	}
+	if len(pieces) == 1 {
+		return pieces[0], true
+	}
+	r.assumed["assumed contract: fmt.Sprintf of literal text and %v/%s/%d verbs over strings and integers is the concatenation of the pieces"] = true
+	return "(str.++ " + strings.Join(pieces, " ") + ")", true
+}
+
+func hasFmtMethod(t types.Type) bool {
+	for _, tt := range []types.Type{t, types.NewPointer(t)} {
+		ms := types.NewMethodSet(tt)
+		for _, n := range []string{"String", "Error", "Format", "GoString"} {
+			if ms.Lookup(nil, n) != nil {
+				return true
+			}
+		}
+	}
+	return false
 }
